@@ -409,6 +409,19 @@ class Interp:
                 self.ctx.mutated.append((obj, "index"))
             obj.index = value
             return
+        if isinstance(obj, SFrame) and name == "columns":
+            # df.columns = labels: same cells, new column labels; pandas rejects a different number of labels
+            ncol = obj.values.shape[1]
+            nlab = len(value.items) if isinstance(value, SList) else (value.len if isinstance(value, SArr) else None)
+            if nlab is None:
+                raise Undecided("DataFrame.columns = <unknown>")
+            if not self.ctx.entails(Eq(nlab, ncol)):
+                if self.ctx.branch(Not(Eq(nlab, ncol)), "columns-length-mismatch"):
+                    raise SymRaise(ExcVal(ExtClass("builtins.ValueError"), ()), where="Length mismatch")
+            if self.ctx.frozen and id(obj) in self.ctx.frozen:
+                self.ctx.mutated.append((obj, "columns"))
+            obj.columns = value
+            return
         if isinstance(obj, Opaque) and getattr(obj, "setattr_ok", False):
             if getattr(obj, "attrs", None) is None:
                 obj.attrs = {}
